@@ -213,6 +213,11 @@ def crossLat (r : Rules) (pi : α) (sign : Int) (lat0 lon0 lat1 lon1 : α) : α 
 
 def getAt (l : List α) (i : Nat) : α := l.getD i zero
 
+/-- share of the crossing segment's value `v` given to the part of length `l`: by length, or half each when the crossing
+    segment has no length (a repeated point written as +π / −π) [code after the second C04 fix; before it the share was
+    `v * l / ltot` throughout, `NaN` for `ltot = 0`] -/
+def splitShare (v l ltot : α) : α := if nonzero ltot then v * l / ltot else v * (d% 0.5)
+
 /-- `_dateline_split_first_segment` (lengths `l1`, `ltot` from `_calculate_segment_lengths`) -/
 def splitFirst (pi : α) (sign : Int) (idx : Nat) (latc l1 ltot : α) (t : Traj α) : Traj α :=
   { lats := t.lats.take (idx + 1) ++ [latc]
@@ -220,7 +225,7 @@ def splitFirst (pi : α) (sign : Int) (idx : Nat) (latc l1 ltot : α) (t : Traj 
     alts := t.alts.map (fun a => a.take (idx + 1) ++ [getAt a idx])
     times := t.times.map (fun a => a.take (idx + 1) ++ [getAt a idx])
     state := t.state.map (fun v => v.take (idx + 1) ++ [getAt v idx])
-    integ := t.integ.map (fun v => v.take idx ++ [getAt v idx * l1 / ltot]) }
+    integ := t.integ.map (fun v => v.take idx ++ [splitShare (getAt v idx) l1 ltot]) }
 
 /-- `_dateline_split_second_segment` -/
 def splitSecond (pi : α) (sign : Int) (idx : Nat) (latc l2 ltot : α) (t : Traj α) : Traj α :=
@@ -229,7 +234,7 @@ def splitSecond (pi : α) (sign : Int) (idx : Nat) (latc l2 ltot : α) (t : Traj
     alts := t.alts.map (fun a => getAt a idx :: a.drop (idx + 1))
     times := t.times.map (fun a => getAt a idx :: a.drop (idx + 1))
     state := t.state.map (fun v => getAt v idx :: v.drop (idx + 1))
-    integ := t.integ.map (fun v => (getAt v idx * l2 / ltot) :: v.drop (idx + 1)) }
+    integ := t.integ.map (fun v => splitShare (getAt v idx) l2 ltot :: v.drop (idx + 1)) }
 
 def Out.append (a b : Out α) : Out α :=
   { latI := a.latI ++ b.latI
